@@ -463,7 +463,7 @@ def mk_job(model, f, name, enforce, replace, call, decls, kind, owners, function
     tu.add('    VP_CANARY();\n}')
     return Job(name=name, src=tu.text(), sources=[f.spec['source'], 'src/avtp/Utils.c'], enforce=enforce,
                replace=replace, owners=owners, clause_map=tu.tags_of(enf), function=function, kind=kind,
-               replay=replay, config=config, timeout=300)
+               replay=replay, config=config, timeout=900)
 
 
 def fit_wrapper(f, p, row):
